@@ -9,16 +9,27 @@ Local Open Scope Z_scope.
 
 Inductive server : Type :=
 | Last (rows : list Z)
-| More (rows : list Z) (st : Z) (rest : server).
+| More (rows : list Z) (st : Z) (rest : server)
+| Fail (rest : server).     (* this request ends in an error delivered to the application (e.g. a read timeout the
+                               retry policy rethrows); the same request sent again is answered by `rest` *)
 
 Fixpoint all_rows (srv : server) : list Z :=
-  match srv with Last rs => rs | More rs _ rest => rs ++ all_rows rest end.
+  match srv with Last rs => rs | More rs _ rest => rs ++ all_rows rest | Fail rest => all_rows rest end.
 Fixpoint states (srv : server) : list Z :=
-  match srv with Last _ => [] | More _ st rest => st :: states rest end.
+  match srv with Last _ => [] | More _ st rest => st :: states rest | Fail rest => states rest end.
 Fixpoint npages (srv : server) : nat :=
-  match srv with Last _ => 1%nat | More _ _ rest => S (npages rest) end.
+  match srv with Last _ => 1%nat | More _ _ rest => S (npages rest) | Fail rest => npages rest end.
 Fixpoint pages (srv : server) : list (list Z) :=
-  match srv with Last rs => [rs] | More rs _ rest => rs :: pages rest end.
+  match srv with Last rs => [rs] | More rs _ rest => rs :: pages rest | Fail rest => pages rest end.
+Fixpoint nfails (srv : server) : nat :=
+  match srv with Last _ => O | More _ _ rest => nfails rest | Fail rest => S (nfails rest) end.
+(* the requests a client that simply repeats a failed request must send: `cur` is the paging state it holds *)
+Fixpoint expected_reqs (cur : option Z) (srv : server) : list (option Z) :=
+  match srv with
+  | Last _ => [cur]
+  | More _ st rest => cur :: expected_reqs (Some st) rest
+  | Fail rest => cur :: expected_reqs cur rest
+  end.
 
 (* ResponseFuture part: `more` = Some (st, srv): _paging_state = st and the server will answer the next request
    with the pages of srv; None: _paging_state is None. *)
@@ -31,36 +42,42 @@ Record rset : Type := mkRS {
 
 Inductive val : Type :=
 | VRow (z : Z) | VNone | VRows (l : list Z) | VBool (b : bool) | VState (o : option Z) | VSelf
-| VStop | VTypeError | VRuntimeError | VIndexError | VFuel.
+| VStop | VTypeError | VRuntimeError | VIndexError | VFuel
+| VError.                   (* the exception of a failed page request (ReadTimeout ...) *)
 
 (* Req st: a message was sent carrying paging_state = st *)
 Inductive out : Type := Req (st : option Z) | Ret (v : val).
 
 (* ResponseFuture.result() for the first page: the initial request carries no paging state *)
-Definition receive (srv : server) : list Z * option (Z * server) :=
-  match srv with Last rs => (rs, None) | More rs st rest => (rs, Some (st, rest)) end.
-
-Definition init (srv : server) : rset * list out :=
-  let '(rs, m) := receive srv in (mkRS rs None false m, [Req None]).
+(* execute(): if the first request fails the application calls execute() again *)
+Fixpoint init (srv : server) : rset * list out :=
+  match srv with
+  | Last rs => (mkRS rs None false None, [Req None])
+  | More rs st rest => (mkRS rs None false (Some (st, rest)), [Req None])
+  | Fail rest => let '(s, o) := init rest in (s, Req None :: o)
+  end.
 
 Definition has_more (s : rset) : bool := match more s with Some _ => true | None => false end.
 Definition paging_state (s : rset) : option Z := match more s with Some (st, _) => Some st | None => None end.
 
 (* fetch_next_page: start_fetching_next_page (message.paging_state := _paging_state; send) + result() *)
-Definition fetch (s : rset) : rset * list out :=
+Definition fetch (s : rset) : rset * list out * val :=
   match more s with
-  | Some (st, srv) => let '(rs, m) := receive srv in (mkRS rs (it s) (lmode s) m, [Req (Some st)])
-  | None => (mkRS [] (it s) (lmode s) None, [])
+  | Some (st, Last rs) => (mkRS rs (it s) (lmode s) None, [Req (Some st)], VNone)
+  | Some (st, More rs st' rest) => (mkRS rs (it s) (lmode s) (Some (st', rest)), [Req (Some st)], VNone)
+  | Some (st, Fail rest) => (mkRS (cur s) (it s) (lmode s) (Some (st, rest)), [Req (Some st)], VError)   (* result() raises; _paging_state is kept *)
+  | None => (mkRS [] (it s) (lmode s) None, [], VNone)
   end.
 
 (* next() once _page_iter is exhausted and has_more_pages: fetch_next_page(); _page_iter = iter(_current_rows);
    return self.next() -- the recursion is structural on the server script. *)
-Fixpoint pull (lm : bool) (st : Z) (srv : server) : rset * list out * val :=
+Fixpoint pull (lm : bool) (c : list Z) (st : Z) (srv : server) : rset * list out * val :=
   match srv with
   | Last [] => (mkRS [] (Some []) lm None, [Req (Some st)], VStop)
   | Last (r :: rs) => (mkRS (r :: rs) (Some rs) lm None, [Req (Some st)], VRow r)
-  | More [] st' rest => let '(s', o, v) := pull lm st' rest in (s', Req (Some st) :: o, v)
+  | More [] st' rest => let '(s', o, v) := pull lm [] st' rest in (s', Req (Some st) :: o, v)
   | More (r :: rs) st' rest => (mkRS (r :: rs) (Some rs) lm (Some (st', rest)), [Req (Some st)], VRow r)
+  | Fail rest => (mkRS c (Some []) lm (Some (st, rest)), [Req (Some st)], VError)   (* fetch_next_page raised *)
   end.
 
 Definition next (s : rset) : rset * list out * val :=
@@ -70,7 +87,7 @@ Definition next (s : rset) : rset * list out * val :=
   | Some [] =>
       match more s with
       | None => (mkRS (if lmode s then cur s else []) (Some []) (lmode s) None, [], VStop)
-      | Some (st, srv) => pull (lmode s) st srv
+      | Some (st, srv) => pull (lmode s) (cur s) st srv
       end
   end.
 
@@ -80,24 +97,40 @@ Definition iter_ (s : rset) : rset * val :=
   else (mkRS (cur s) (Some (cur s)) (lmode s) (more s), VSelf).
 
 (* repeated next() until StopIteration, as list()/for do; fuel is an upper bound on the number of calls *)
-Fixpoint drain (fuel : nat) (s : rset) (acc : list Z) (o : list out) : rset * list out * option (list Z) :=
+Fixpoint drain (fuel : nat) (s : rset) (acc : list Z) (o : list out) : rset * list out * val :=
   match fuel with
-  | O => (s, o, None)
+  | O => (s, o, VFuel)
   | S f =>
       let '(s', o', v) := next s in
       match v with
       | VRow r => drain f s' (acc ++ [r]) (o ++ o')
-      | VStop => (s', o ++ o', Some acc)
-      | _ => (s', o ++ o', None)
+      | VStop => (s', o ++ o', VRows acc)
+      | e => (s', o ++ o', e)                      (* the exception leaves list() / the for loop *)
       end
   end.
+
+(* an application that keeps calling next() on the same iterator after a failed page fetch *)
+Fixpoint drain_retry (fuel : nat) (s : rset) (acc : list Z) (o : list out) : rset * list out * val :=
+  match fuel with
+  | O => (s, o, VFuel)
+  | S f =>
+      let '(s', o', v) := next s in
+      match v with
+      | VRow r => drain_retry f s' (acc ++ [r]) (o ++ o')
+      | VError => drain_retry f s' acc (o ++ o')
+      | VStop => (s', o ++ o', VRows acc)
+      | e => (s', o ++ o', e)
+      end
+  end.
+
+Definition pending_fails (s : rset) : nat := match more s with Some (_, srv) => nfails srv | None => O end.
 
 Definition pending_rows (s : rset) : list Z :=
   match it s with Some l => l | None => [] end ++ match more s with Some (_, srv) => all_rows srv | None => [] end.
 
 (* list(self) *)
-Definition list_self (s : rset) : rset * list out * option (list Z) :=
-  if lmode s then (s, [], Some (cur s))
+Definition list_self (s : rset) : rset * list out * val :=
+  if lmode s then (s, [], VRows (cur s))
   else let '(s1, _) := iter_ s in drain (S (length (pending_rows s1))) s1 [] [].
 
 (* _enter_list_mode *)
@@ -108,8 +141,8 @@ Definition enter_list_mode (s : rset) : rset * list out * option val :=
        | None =>
            let '(s1, o, r) := list_self s in
            match r with
-           | Some rows => (mkRS rows None true (more s1), o, None)
-           | None => (s1, o, Some VFuel)
+           | VRows rows => (mkRS rows None true (more s1), o, None)
+           | e => (s1, o, Some e)                  (* _fetch_all raised: _page_iter stays set, not in list mode *)
            end
        end.
 
@@ -134,7 +167,7 @@ Definition step (s : rset) (o : op) : rset * list out :=
   match o with
   | OIter => let '(s', v) := iter_ s in (s', [Ret v])
   | ONext => let '(s', outs, v) := next s in (s', outs ++ [Ret v])
-  | OFetch => let '(s', outs) := fetch s in (s', outs ++ [Ret VNone])
+  | OFetch => let '(s', outs, v) := fetch s in (s', outs ++ [Ret v])
   | OOne => (s, [Ret (match cur s with r :: _ => VRow r | [] => VNone end)])
   | OCurrent => (s, [Ret (VRows (cur s))])
   | OHasMore => (s, [Ret (VBool (has_more s))])
@@ -154,7 +187,7 @@ Definition step (s : rset) (o : op) : rset * list out :=
       end
   | OList =>
       let '(s', outs, r) := list_self s in
-      (s', outs ++ [Ret (match r with Some rows => VRows rows | None => VFuel end)])
+      (s', outs ++ [Ret r])
   end.
 
 (* observable state after a step: (_current_rows, _page_iter remaining, _list_mode, _paging_state) *)
@@ -177,28 +210,38 @@ Fixpoint reqs (o : list out) : list (option Z) :=
 
 (* the user-level readings of the statement *)
 (* iteration: list(result_set) right after execute() *)
-Definition iterate (srv : server) : list out * option (list Z) :=
+Definition iterate (srv : server) : list out * val :=
   let '(s0, o0) := init srv in let '(_, o, r) := list_self s0 in (o0 ++ o, r).
 
+(* iteration by an application that goes on calling next() after a failed page fetch *)
+Definition iterate_retry (srv : server) : list out * val :=
+  let '(s0, o0) := init srv in
+  let '(s1, _) := iter_ s0 in
+  let '(_, o, r) := drain_retry (S (length (pending_rows s1) + pending_fails s1)) s1 [] [] in (o0 ++ o, r).
+
 (* materialisation through the index/equality operators *)
-Definition materialise (srv : server) : list out * option (list Z) :=
+Definition materialise (srv : server) : list out * val :=
   let '(s0, o0) := init srv in
   let '(s1, o, e) := enter_list_mode s0 in
-  (o0 ++ o, match e with None => Some (cur s1) | Some _ => None end).
+  (o0 ++ o, match e with None => VRows (cur s1) | Some v => v end).
 
 (* manual paging: rows = current_rows; while has_more_pages: fetch_next_page(); rows += current_rows *)
+(* a failed fetch_next_page() is simply called again *)
 Fixpoint manual_loop (fuel : nat) (s : rset) (o : list out) : list out * option (list Z) :=
   if has_more s then
     match fuel with
     | O => (o, None)
-    | S f => let '(s', o') := fetch s in
+    | S f => let '(s', o', v) := fetch s in
              let '(o'', r) := manual_loop f s' (o ++ o') in
-             (o'', match r with Some rows => Some (cur s ++ rows) | None => None end)
+             (o'', match r with
+                   | Some rows => Some (match v with VError => rows | _ => cur s ++ rows end)
+                   | None => None
+                   end)
     end
   else (o, Some (cur s)).
 
 Definition manual (srv : server) : list out * option (list Z) :=
-  let '(s0, o0) := init srv in manual_loop (npages srv) s0 o0.
+  let '(s0, o0) := init srv in manual_loop (npages srv + nfails srv) s0 o0.
 
 (* ---------- comparison helpers for the correspondence (decidable equality on outputs) ---------- *)
 Definition oz_eqb (a b : option Z) : bool :=
@@ -209,7 +252,7 @@ Definition val_eqb (a b : val) : bool :=
   match a, b with
   | VRow x, VRow y => x =? y
   | VNone, VNone | VSelf, VSelf | VStop, VStop | VTypeError, VTypeError | VRuntimeError, VRuntimeError
-  | VIndexError, VIndexError | VFuel, VFuel => true
+  | VIndexError, VIndexError | VFuel, VFuel | VError, VError => true
   | VRows x, VRows y => zlist_eqb x y
   | VBool x, VBool y => Bool.eqb x y
   | VState x, VState y => oz_eqb x y
